@@ -26,6 +26,7 @@ type limitedResponseWriter struct {
 	limitReached bool
 	wroteHeader  bool
 	statusCode   int
+	hijacked     bool
 	ctx          context.Context
 }
 
@@ -92,13 +93,29 @@ func (lrw *limitedResponseWriter) WriteHeader(statusCode int) {
 	if lrw.wroteHeader {
 		return
 	}
+	// Interim (1xx) responses carry no body and are not the final status: pass them on
+	if statusCode >= 100 && statusCode < 200 && statusCode != http.StatusSwitchingProtocols {
+		lrw.ResponseWriter.WriteHeader(statusCode)
+		return
+	}
 	// Just record the status code, don't write it yet
 	lrw.statusCode = statusCode
+}
+
+// finish sends the recorded status of a response that ended without a body write
+// (204, 304, redirects, empty errors, HEAD): nothing else would ever forward it and
+// the client would receive an implicit 200.
+func (lrw *limitedResponseWriter) finish() {
+	if lrw.hijacked || lrw.wroteHeader || lrw.statusCode == 0 {
+		return
+	}
+	lrw.ensureHeaderWritten()
 }
 
 // Support http.Hijacker if underlying supports it (for websockets)
 func (lrw *limitedResponseWriter) Hijack() (net.Conn, *bufio.ReadWriter, error) {
 	if h, ok := lrw.ResponseWriter.(http.Hijacker); ok {
+		lrw.hijacked = true
 		return h.Hijack()
 	}
 	return nil, nil, http.ErrNotSupported
@@ -106,6 +123,11 @@ func (lrw *limitedResponseWriter) Hijack() (net.Conn, *bufio.ReadWriter, error) 
 
 // Support http.Flusher if underlying supports it
 func (lrw *limitedResponseWriter) Flush() {
+	// A flush commits the response header: make sure it carries the recorded status
+	// (flushing the underlying writer first would commit an implicit 200)
+	if !lrw.limitReached {
+		lrw.ensureHeaderWritten()
+	}
 	if f, ok := lrw.ResponseWriter.(http.Flusher); ok {
 		f.Flush()
 	}
@@ -182,6 +204,7 @@ func newSizeLimitMiddleware(name string, cfg map[string]interface{}) (Middleware
 
 			// Call next handler with the limited response writer
 			next.ServeHTTP(lrw, r)
+			lrw.finish()
 		})
 	}, nil
 }
